@@ -23,12 +23,15 @@ EXHAUSTIVE = {'quick': True, 'thorough': True}
 PRE = '''
 import numpy as np
 from scinumtools.units import Quantity
+def _freeze(x):
+    # arrays are mutable: a snapshot must hold its own copy of the elements
+    return list(x) if hasattr(x, 'shape') and getattr(x, 'shape', ()) != () else x
 def snap(q):
-    return (q.value(), q.units(), q.abse())
+    return (_freeze(q.value()), q.units(), _freeze(q.abse()), dict(q.baseunits.value()), list(q.baseunits.dimensions.value()))
 def same(O, tag, s0, s1):
     out = []
     v0, v1 = s0[0], s1[0]
-    if hasattr(v0, 'shape') and getattr(v0, 'shape', ()) != ():
+    if isinstance(v0, list):
         for i in range(len(v0)):
             out.append((f'{tag}: value[{i}] unchanged', O.eq(v1[i], v0[i])))
     else:
@@ -37,10 +40,13 @@ def same(O, tag, s0, s1):
     e0, e1 = s0[2], s1[2]
     if e0 is None or e1 is None:
         out.append((f'{tag}: uncertainty unchanged', e0 is None and e1 is None))
-    elif hasattr(e0, 'shape') and getattr(e0, 'shape', ()) != ():
-        out.append((f'{tag}: uncertainty unchanged', O.eq(e1[0], e0[0])))
+    elif isinstance(e0, list):
+        for i in range(len(e0)):
+            out.append((f'{tag}: uncertainty[{i}] unchanged', O.eq(e1[i], e0[i])))
     else:
         out.append((f'{tag}: uncertainty unchanged', O.eq(e1, e0)))
+    out.append((f'{tag}: unit exponents unchanged', O.same(s1[3], s0[3])))
+    out.append((f'{tag}: dimensions unchanged', O.same(s1[4], s0[4])))
     return out
 def mk(O, kind, x, x2, u, e):
     if kind == 'arr': return Quantity(O.arr([x, x2]), u, abse=e)
@@ -58,6 +64,7 @@ def run(v, O):
     out = same(O, 'left operand after op', a0, snap(A)) + same(O, 'right operand after op', b0, snap(B))
     if isinstance(r, Quantity):
         # mutate the result in place; operands must not notice
+        r.rebase()
         if v.ur: r.to(v.ur)
         if v.kind != 'dec': r.abse(v.e2)
         r.rebase()
@@ -78,6 +85,7 @@ def run(v, O):
     r = op(A)
     out = same(O, 'operand after op', a0, snap(A))
     if isinstance(r, Quantity):
+        r.rebase()
         if v.ur: r.to(v.ur)
         r.abse(v.e2)
         r.rebase()
@@ -170,9 +178,9 @@ def scenarios(tier, seed):
                                   preamble=PRE + f"ALT = {ub!r}\nOPS = {{{op!r}: {src}}}\n", what=f'{op} on a {kind} operand in {ua}', samples=1))
     # logarithmic operands: level addition / subtraction
     for op in ('add', 'sub', 'eq'):
-        for w, ur, w2 in (('dBm', 'dBW', 'Bm'), ('dB', 'B', 'B'), ('dBV', 'dBuV', 'BV')):
-            S.append(Scenario(f'bin/{op}/log-{w}/scalar', BIN_SRC, R, POS + (['v.a > v.b'] if op == 'sub' else []) + (['v.b != 0'] if op == 'eq' else []),
-                              consts={'op': op, 'kind': 'exact', 'ua': w, 'ub': w, 'ur': ur if op != 'eq' else None, 'ua2': w2, 'ub2': w2},
+        for w, wb, ur, w2 in (('dBm', 'dBm', 'dBW', 'Bm'), ('dB', 'dB', 'B', 'B'), ('dBV', 'dBV', 'dBuV', 'BV'), ('dB', 'B', 'B', 'dB'), ('Bm', 'dBm', 'dBW', 'dBm'), ('dBA', 'BA', 'BA', 'dBA')):
+            S.append(Scenario(f'bin/{op}/log-{w}-{wb}/scalar', BIN_SRC, R, POS + (['v.a > 1000', 'v.b < 1'] if op == 'sub' else []) + (['v.b != 0'] if op == 'eq' else []),
+                              consts={'op': op, 'kind': 'exact', 'ua': w, 'ub': wb, 'ur': ur if op != 'eq' else None, 'ua2': w2, 'ub2': w2},
                               preamble=PRE + f"OPS = {{{op!r}: {OPS_BIN[op]}}}\n", what=f'{op} on logarithmic operands in {w}', samples=1))
     for pname, (ua, ub, ur, ua2, ub2) in PAIRS.items():
         S.append(Scenario(f'inplace/{pname}', INPLACE_SRC, {'a': 'real', 'b': 'real', 'ea': 'real', 'eb': 'real', 'e2': 'real'}, POS,
